@@ -48,6 +48,12 @@ def harnesses(ctx, tier):
         hs.append(nr_h("found", "$a", N, nb, s))
     if tier == "thorough":
         hs.append(nr_h("count", "#a == 2", 4, 2, 0x1))
+    # the re-iteration of the blocks done by rule evaluation (intN/uintN readers): every entry point hands the same bytes to
+    # these functions; they must depend on nothing but the block contents (no read outside a block, whatever its size)
+    for fn, sz, signed, be in (("read_uint8_t_little_endian", 1, 0, 0), ("read_uint16_t_little_endian", 2, 0, 0), ("read_uint32_t_big_endian", 4, 0, 1), ("read_int32_t_little_endian", 4, 1, 0)):
+        hs.append(Harness(name="H3_" + fn, src="c04/readers.c", defines=["-DVF_READER=" + fn, "-DVF_SIZE=%d" % sz, "-DVF_SIGNED=%d" % signed, "-DVF_BE=%d" % be],
+                          unwind=6, timeout=300, desc="%s on a symbolic 2-block layout (blocks of 0..4 bytes, shorter than the integer included)" % fn,
+                          bounds="2 blocks x <= 4 bytes, base 0..3, gap 0..2, offset any size_t", functions=[fn]))
     hs.append(Harness(name="H2_reentry_preserves_state", src="c13/reentry.c", unwind=6, timeout=300, unwind_funcs={"vf_init_tables": 257, "memcmp": 400},
                       desc="re-entering yr_scanner_scan_mem_blocks on an ARBITRARY suspended scanner state with a still-not-ready iterator: state bitwise unchanged, `next` called once, nothing reported",
                       bounds="arbitrary bitmaps, match-list heads, entry point, file size; 1 rule, 1 string",
